@@ -597,8 +597,9 @@ Fixpoint add_chars (dt : dtype) (nchar : Z) (first : option Z) (cs : str) (n : Z
     else add_chars dt nchar first r (n + 1)
   end.
 
-(* _read_character_states(vector with n states) -> new length *)
-Fixpoint states_loop (fuel : nat) (nchar : Z) (first : option Z) (n : Z) (st : nstate) : nr (Z * nstate) :=
+(* _read_character_states(vector with n states) -> new length.  `dt` is the data type of the matrix
+   being read (it cannot change inside a MATRIX statement) *)
+Fixpoint states_loop (fuel : nat) (dt : dtype) (nchar : Z) (first : option Z) (n : Z) (st : nstate) : nr (Z * nstate) :=
   match fuel with
   | O => RFuel
   | S f =>
@@ -611,8 +612,8 @@ Fixpoint states_loop (fuel : nat) (nchar : Z) (first : option Z) (n : Z) (st : n
       else match tok with
            | None => RErr TypeErr                                 (* `for c in None` *)
            | Some cs =>
-             dn n1 <- add_chars (n_dtype st1) nchar first cs n ;;
-             states_loop f nchar first n1 st1
+             dn n1 <- add_chars dt nchar first cs n ;;
+             states_loop f dt nchar first n1 st1
            end
     else ROk (n, st)
   end.
@@ -631,7 +632,7 @@ Definition get_taxon (st : nstate) (ti : nat) (label : str) : nr (nat * nstate) 
     else ROk (length ls, tns_set_labels st ti (ls ++ [label]))
   end.
 
-Fixpoint matrix_loop (fuel : nat) (nchar : Z) (tok : option str) (st : nstate) (first : option nat)
+Fixpoint matrix_loop (fuel : nat) (dt : dtype) (nchar : Z) (tok : option str) (st : nstate) (first : option nat)
   : nr (option str * nstate) :=
   match fuel with
   | O => RFuel
@@ -648,14 +649,14 @@ Fixpoint matrix_loop (fuel : nat) (nchar : Z) (tok : option str) (st : nstate) (
                         | Some ft => row_len_of (m_rows m1) ft
                         | None => None
                         end in
-        dn q <- states_loop F nchar firstlen n0 (set_last_mat st1 m1) ;;
+        dn q <- states_loop F dt nchar firstlen n0 (set_last_mat st1 m1) ;;
         let '(n1, st2) := q in
         let m2 := mkMat (m_label m) (m_tns m) (set_row (m_rows m1) t n1) (m_sets m) in
         let st3 := set_last_mat st2 m2 in
         let first' := match first with Some ft => Some ft | None => Some t end in
         if n1 <? nchar then RErr ParseErr
         else dn p <- fetch (nth_prim L_matrix 0) tok st3 ;;
-             matrix_loop f nchar (fst p) (snd p) first'
+             matrix_loop f dt nchar (fst p) (snd p) first'
       | _, _ => RUnm
       end
     else ROk (tok, st)
@@ -673,8 +674,12 @@ Definition parse_matrix (st : nstate) (block_title link_title : option str) : nr
       if n_interleave st2 then RUnm
       else match n_dtype st2 with
            | DOther => RUnm
-           | _ => dn p <- next_token st2 ;;
-                  dn r <- matrix_loop F nc (fst p) (snd p) None ;;
+           | dt =>
+             (* on the repaired form the block start has given STANDARD its symbols: DStandardEmpty
+                cannot reach a MATRIX *)
+             if (match dt with DStandardEmpty => fx_datatype fx | _ => false end) then RUnm
+             else dn p <- next_token st2 ;;
+                  dn r <- matrix_loop F dt nc (fst p) (snd p) None ;;
                   if fx_truncmatrix fx && negb (tok_is (fst r) ";") then RErr ParseErr else ROk (snd r)
            end
   | _, _ => RErr ParseErr
